@@ -52,6 +52,8 @@ def assemble(c, lib):
     elif where == "fn":        # the whole exchange inside a bytecode function
         helper = ["function helper"] + pushes + [callins(c["call"]), '\tprintn "*"', "\tvoid", "\tret", "end"]
         lines += ['\tcall "main.mmm#helper"', "\tvoid"]
+    elif where == "module_tail":   # the program ends with the foreign call: `call_lib` directly before the module's `ret`
+        return "\n".join(["function __module__"] + pushes + [callins(c["call"]), "\tret", "end"]) + "\n"
     else:                      # tail: the foreign call is the last instruction before `ret`; the module prints what comes back
         helper = ["function helper"] + pushes + [callins(c["call"]), "\tret", "end"]
         lines += ['\tcall "main.mmm#helper"', '\tprintn "*"', "\tvoid"]
@@ -101,7 +103,7 @@ def run(tier, replay=None):
     for c, o in zip(cases, obs):
         c["obs"] = o
     f = work / "cases.ndjson"
-    C.write_ndjson(f, [dict(id=c["id"], args=c["args"], call=c["call"], call2=c["call2"], args2=c["args2"], obs=c["obs"]) for c in cases])
+    C.write_ndjson(f, [dict(id=c["id"], args=c["args"], call=c["call"], call2=c["call2"], args2=c["args2"], where=c["where"], obs=c["obs"]) for c in cases])
     r = C.tlc("CheckFfi", "CheckFfi", work / "judge", env=dict(CASES=str(f)), workers=8, timeout=1800)
     if r.error or r.invariant_violated:
         raise C.ToolError(f"CheckFfi: {r.error or r.invariant_violated}")
